@@ -139,12 +139,24 @@ def face_edge_fill_range(ctx: Context, rule: str) -> None:
     fi = ctx.func(f"{TOPO}.has_valid_face_edge_connectivity")
     m = Matcher(ctx, fi)
     ok = m.has('$lo = _get_start_index($da)', '$hi = self.edge_count + $lo')
-    test = None
+    inclusive = exclusive = None
     if ok:
         for alt in ('if $lo <= $fill <= $hi:\n    ...', 'if $fill >= $lo and $fill <= $hi:\n    ...'):
-            test = test or m.stmt(alt)
-    ctx.check(rule, ok and test is not None, "a fill value of the face-edge table is suspicious only inside the table's own index range [start_index, start_index + edge_count]", fi,
-              test or fi.node, construct='if start_index <= fill_value <= edge_count + start_index')
+            inclusive = inclusive or m.stmt(alt)
+        for alt in ('if $lo <= $fill < $hi:\n    ...', 'if $fill >= $lo and $fill < $hi:\n    ...'):
+            exclusive = exclusive or m.stmt(alt)
+    test = inclusive or exclusive
+    ctx.check(rule, ok and test is not None, "a fill value of the face-edge table is compared with the table's own index range, which starts at its start_index and is edge_count long", fi,
+              test or fi.node, construct='range test on start_index, start_index + edge_count')
+    if test is not None:
+        ctx.check(rule, exclusive is not None, "the index range is [start_index, start_index + edge_count): a fill value equal to start_index + edge_count is outside it and the supplied table is used as given", fi,
+                  test, construct=f"upper bound inclusive: {norm_text(test.test)}" if exclusive is None else f"upper bound exclusive: {norm_text(test.test)}")
+        # edge_count raises without an edge dimension: the comparison needs one
+        reads = [n for n in ast.walk(fi.node) if isinstance(n, ast.Attribute) and n.attr in ('edge_count', 'edge_dimension') and norm_text(n.value) == 'self']
+        unguarded = [n for n in reads if ('self.has_edge_dimension', True) not in guards(fi, n)]
+        ctx.check(rule, bool(reads) and not unguarded, "the edge count is only consulted when the mesh has an edge dimension (edge_count raises NoEdgeDimensionException otherwise, "
+                  "and a table that is fine with NaN padding must be fine with a _FillValue)", fi, unguarded[0] if unguarded else test,
+                  construct=f"reads of edge_count / edge_dimension outside a has_edge_dimension guard: {[norm_text(n) for n in unguarded] or 'none'}")
 
 
 # --------------------------------------------------------------------------- name lookups
